@@ -167,6 +167,8 @@ def run_case(case):
             return res
         rows = cli.parse_status(r.out)
         table = dict(rows)
+        res.obs("status_table", table)
+        res.obs("oracle", st)
         for n in names:
             res.mon("status_rows")
             if table.get(n) != st[n]:
@@ -219,6 +221,7 @@ def run_case(case):
             res.violation("crash", "gwf run --dry-run failed", **cli.crash_witness(r))
         else:
             dry = sorted(cli.would_submit(r.err + r.out))
+            res.obs("dry_run_would_submit", dry)
             res.mon("dryrun_compared")
             if dry != from_status:
                 res.violation("dryrun-mismatch", "dry-run would submit %s; status table says %s" % (dry, from_status), patterns=pats, table=table)
@@ -230,6 +233,7 @@ def run_case(case):
         else:
             jobs = sim.jobs()
             ran = sorted(jobs[s["job"]]["name"] for s in sim.submissions(seq0))
+            res.obs("run_submitted", ran)
             res.mon("run_compared")
             if ran != from_status:
                 res.violation("run-mismatch", "run submitted %s; status table says %s" % (ran, from_status), patterns=pats, table=table)
